@@ -15,7 +15,7 @@ theorem mem_bucket {resid : List Nat} {d n : Nat} : n ∈ bucket resid d ↔ res
 theorem nodup_bucket (resid : List Nat) (d : Nat) : (bucket resid d).Nodup :=
   List.nodup_range.filter _
 
-theorem posDegs_spec (resid : List Nat) : (posDegs resid).Nodup ∧ ∀ d ∈ posDegs resid, 0 < d := by
+theorem posDegs_spec (keys : List Nat) : (posDegs keys).Nodup ∧ ∀ d ∈ posDegs keys, 0 < d := by
   unfold posDegs
   have hrev : ∀ k, ((List.range k).reverse).Nodup := by
     intro k
@@ -30,17 +30,17 @@ theorem posDegs_spec (resid : List Nat) : (posDegs resid).Nodup ∧ ∀ d ∈ po
 /-! ## the descending-degree loop -/
 
 theorem pickLoop_spec {resid : List Nat} {degs : List Nat} {need : Nat} {picks : List (List Nat)}
-    {chosen : List Nat} {need' : Nat} {picks' : List (List Nat)} (hd : degs.Nodup)
-    (h : pickLoop resid degs need picks = some (chosen, need', picks')) :
+    {chosen visited : List Nat} {need' : Nat} {picks' : List (List Nat)} (hd : degs.Nodup)
+    (h : pickLoop resid degs need picks = some (chosen, visited, need', picks')) :
     chosen.Nodup ∧ (∀ c ∈ chosen, ∃ d ∈ degs, resid[c]? = some d) ∧ chosen.length + need' = need := by
-  induction degs generalizing need picks chosen need' picks' with
+  induction degs generalizing need picks chosen visited need' picks' with
   | nil =>
     cases need with
-    | zero => simp [pickLoop] at h; obtain ⟨rfl, rfl, _⟩ := h; simp
-    | succ k => simp [pickLoop] at h; obtain ⟨rfl, rfl, _⟩ := h; simp
+    | zero => simp [pickLoop] at h; obtain ⟨rfl, _, rfl, _⟩ := h; simp
+    | succ k => simp [pickLoop] at h; obtain ⟨rfl, _, rfl, _⟩ := h; simp
   | cons d ds ih =>
     cases need with
-    | zero => simp [pickLoop] at h; obtain ⟨rfl, rfl, _⟩ := h; simp
+    | zero => simp [pickLoop] at h; obtain ⟨rfl, _, rfl, _⟩ := h; simp
     | succ k =>
       cases picks with
       | nil => simp [pickLoop] at h
@@ -52,9 +52,9 @@ theorem pickLoop_spec {resid : List Nat} {degs : List Nat} {need : Nat} {picks :
           cases hr : pickLoop resid ds (k + 1 - p.length) ps with
           | none => simp [hr] at h
           | some r =>
-            obtain ⟨c', nd, rr⟩ := r
+            obtain ⟨c', vs, nd, rr⟩ := r
             simp only [hr, Option.map_some, Option.some.injEq, Prod.mk.injEq] at h
-            obtain ⟨rfl, rfl, rfl⟩ := h
+            obtain ⟨rfl, _, rfl, rfl⟩ := h
             have hdn := List.nodup_cons.mp hd
             obtain ⟨i1, i2, i3⟩ := ih hdn.2 hr
             refine ⟨?_, ?_, ?_⟩
@@ -140,8 +140,8 @@ theorem decResid_spec {resid : List Nat} {chosen : List Nat} (hn : chosen.Nodup)
 
 /-! ## `_extract_hye` -/
 
-theorem extractHye_spec {resid : List Nat} {size : Nat} {fd fm : Bool} {picks : List (List Nat)}
-    {o : ExtractOut} (h : extractHye resid size fd fm picks = some o) :
+theorem extractHye_spec {keys resid : List Nat} {size : Nat} {fd fm : Bool} {picks : List (List Nat)}
+    {o : ExtractOut} (h : extractHye keys resid size fd fm picks = some o) :
     o.resid.length = resid.length ∧ o.hye.Nodup ∧ (∀ x ∈ o.hye, x < resid.length) ∧
       (o.exhausted = false → o.hye.length = size ∧
         (∀ n, o.hye.count n + rd o.resid n = rd resid n) ∧ o.resid.sum + size = resid.sum) ∧
@@ -152,12 +152,12 @@ theorem extractHye_spec {resid : List Nat} {size : Nat} {fd fm : Bool} {picks : 
   · split at h
     · exact absurd h (by simp)
     · -- the loop filled the hyperedge
-      rename_i chosen picks' hl
-      obtain ⟨c1, c2, c3⟩ := pickLoop_spec (posDegs_spec resid).1 hl
+      rename_i chosen visited picks' hl
+      obtain ⟨c1, c2, c3⟩ := pickLoop_spec (posDegs_spec keys).1 hl
       have hp : ∀ c ∈ chosen, ∃ r, resid[c]? = some (r + 1) := by
         intro c hc
         obtain ⟨d, hd, e⟩ := c2 c hc
-        have := (posDegs_spec resid).2 d hd
+        have := (posDegs_spec keys).2 d hd
         exact ⟨d - 1, by rw [e]; congr; omega⟩
       obtain ⟨d1, d2, d3⟩ := decResid_spec c1 hp
       simp only [Option.some.injEq] at h
@@ -177,12 +177,12 @@ theorem extractHye_spec {resid : List Nat} {size : Nat} {fd fm : Bool} {picks : 
         simp [hn, hr]; omega
       · simp [hn]
     · -- degrees exhausted
-      rename_i chosen need picks' hl
-      obtain ⟨c1, c2, c3⟩ := pickLoop_spec (posDegs_spec resid).1 hl
+      rename_i chosen visited need picks' hl
+      obtain ⟨c1, c2, c3⟩ := pickLoop_spec (posDegs_spec keys).1 hl
       have hp : ∀ c ∈ chosen, ∃ r, resid[c]? = some (r + 1) := by
         intro c hc
         obtain ⟨d, hd, e⟩ := c2 c hc
-        have := (posDegs_spec resid).2 d hd
+        have := (posDegs_spec keys).2 d hd
         exact ⟨d - 1, by rw [e]; congr; omega⟩
       obtain ⟨d1, d2, d3⟩ := decResid_spec c1 hp
       have hlt : ∀ x ∈ chosen, x < resid.length := by
@@ -193,6 +193,8 @@ theorem extractHye_spec {resid : List Nat} {size : Nat} {fd fm : Bool} {picks : 
       · -- top up with nodes of degree 0
         rename_i htop
         unfold extractTopUp at h
+        split at h
+        case isFalse => exact absurd h (by simp)
         split at h
         · exact absurd h (by simp)
         · rename_i p ps
@@ -252,7 +254,7 @@ theorem extractInto_spec {N : Nat} {degSeq : List Nat} {size : Nat} {fd fm : Boo
       ((fm || !fd) = true → st'.cfg.map List.length = st.cfg.map List.length ++ sizesOf size 1) ∧
       (2 ≤ size → MUse degSeq st → MUse degSeq st') := by
   unfold extractInto at h
-  cases he : extractHye st.resid size fd fm st.picks with
+  cases he : extractHye st.keys st.resid size fd fm st.picks with
   | none => simp [he] at h
   | some o =>
     simp only [he, Option.map_some, Option.some.injEq] at h
